@@ -184,8 +184,8 @@ BLOCKS = {}
 
 class Block:
     def __init__(self, name, make, cfgs, spec=None, requires=None, props=(), seq=None, notes='', file=None,
-                 timeout=None, finding_split=None, swap=None, opaque_mul=False):
-        self.swap = swap; self.opaque_mul = opaque_mul
+                 timeout=None, finding_split=None, swap=None, opaque_mul=False, sampler=None, no_cvc5=False):
+        self.swap = swap; self.opaque_mul = opaque_mul; self.sampler = sampler; self.no_cvc5 = no_cvc5
         self.name = name; self.make = make; self.cfgs = cfgs; self.spec = spec; self.requires = requires
         self.props = props; self.seq = seq; self.notes = notes; self.file = file; self.timeout = timeout
         self.finding_split = finding_split
